@@ -30,6 +30,7 @@ type Program struct {
 	Cycles        int              `json:"cycles"`                   // number of Serve/Shutdown cycles (>=1)
 	SdDelayUs     int              `json:"sd_delay_us,omitempty"`    // free-running runs: when the scheduled Shutdown is called (0: within 400us)
 	FailSubCycles []int            `json:"failsub_cycles,omitempty"` // serve cycles (0-based) whose connection refuses every subscription
+	OnServeUs     int              `json:"onserve_us,omitempty"`     // the OnServe callback of the first life takes this long (its listener starts afterwards, with a backlog)
 	Overtake      bool             `json:"overtake,omitempty"`       // restart as soon as Shutdown has returned, without waiting for the previous Serve call to return
 }
 
@@ -350,6 +351,14 @@ func (sc *Scenario) Start(cycle int) {
 	sc.serveDone = make(chan error, 1)
 	conn := sc.conn
 	done := sc.serveDone
+	if sc.prog.OnServeUs > 0 {
+		if cycle == 0 {
+			d := time.Duration(sc.prog.OnServeUs) * time.Microsecond
+			sc.svc.SetOnServe(func(*res.Service) { time.Sleep(d) })
+		} else {
+			sc.svc.SetOnServe(nil)
+		}
+	}
 	sc.guard("serve", func() {
 		sc.tr.Gate("serve.call")
 		sc.tr.Log("serve.go")
